@@ -11,7 +11,17 @@ Inductive c05_case :=
 | Calls (x a : Z) (e : list env) (obs : list Z) (final : Z)
 (* Controller.DialPeerAddr(x, a) with the real retry loop: obs = peer of the
    link it returned (0 = still waiting when the script ended) *)
-| Loop (x a : Z) (e : list env) (obs : Z).
+| Loop (x a : Z) (e : list env) (obs : Z)
+(* overlapping DialPeer calls to the same address with different requested peers,
+   the dial held in flight by the harness; obs: result code per call, in call
+   order (-2 = still waiting) *)
+| Shared (a : Z) (e : list cev) (obs : list Z).
+
+Fixpoint res_lookup (i : nat) (l : list (nat * dres)) : Z :=
+  match l with
+  | [] => -2
+  | (j, d) :: l' => if Nat.eqb i j then dres_code d else res_lookup i l'
+  end.
 
 Definition c05_agree (c : c05_case) : bool :=
   match c with
@@ -21,4 +31,7 @@ Definition c05_agree (c : c05_case) : bool :=
       Z.eqb (match aget a s with Some p => p | None => 0 end) final
   | Loop x a e obs =>
       Z.eqb (match dialer_link (fst (dialer_loop [] x a e)) with Some p => p | None => 0 end) obs
+  | Shared a e obs =>
+      let st := crun a e in
+      list_eqb Z.eqb (map (fun i => res_lookup i (c_res st)) (seq 0 (c_next st))) obs
   end.
